@@ -9,7 +9,7 @@ ID = "C03"
 RULE = ("Named sets of 2..150 sequences (quick; thorough up to 400) on both sides of the 100-sequence switch, with many "
         "equal-length members and exact duplicates under different names (so the name tie-break decides), pairwise distinct "
         "names (one case in four uses multi-word FASTA headers in which groups of records share their first word), and a permutation (Hypothesis permutation for small sets, reverse / rotate / seeded shuffle for large); type, "
-        "penalties, threads; through read+run+dump and through the CLI (-o, FASTA). Oracle: row(name) and alignment length "
+        "penalties, threads; through read+run+dump and through the CLI (-o, FASTA); the input file is FASTA or, in half of the plain-name cases, an aligned FASTA / MSF / Clustal presentation of the same records (rows in the order under test). Oracle: row(name) and alignment length "
         "identical in both runs, rows in each run's own input order. Non-trivial = permutation != identity, >= 3 sequences, "
         "gaps present; distinct by hash of the case.")
 ASSUMPTIONS = ["names pairwise distinct within their first 255 characters (the library compares MSA_NAME_LEN characters)"]
@@ -68,19 +68,32 @@ def cases(draw, tier):
     cfg = {"type": draw(gen.types_for(kind)), "threads": draw(gen.threads)}
     cfg["gpo"], cfg["gpe"], cfg["tgpe"] = draw(gen.penalties())
     return {"names": names, "seqs": seqs, "perm": perm, "cfg": cfg, "entry": draw(st.sampled_from(["lib", "lib", "cli"])),
-            "shape": shape}
+            "shape": shape,
+            # the records may come as an alignment file (their gaps are irrelevant, C04): the order of the rows in it is the
+            # order under test
+            "infmt": draw(st.sampled_from(["fasta", "fasta", "fasta", "afa", "msf", "clu"])) if nmode == "plain" else "fasta",
+            "inseed": draw(st.integers(0, 999))}
 
 
 def strategy(tier):
     return cases(tier)
 
 
-def run(names, seqs, cfg, entry):
-    if entry == "lib":
-        r = kal.align_named(names, seqs, cfg)
-        return r["names"], r["rows"]
+def run(names, seqs, cfg, entry, infmt="fasta", inseed=0):
     wd = kal.runner.workdir()
-    fp = wd.write(kal.fasta_bytes(names, seqs), ".fa")
+    if infmt != "fasta":
+        from vlib import present
+        ch = {"fmt": "fasta" if infmt == "afa" else infmt, "gapmode": "aligned", "gapfrac": 0.2, "seed": inseed, "width": 60,
+              "kindletter": "P" if gen.expected_kind(seqs) == "protein" else "N"}
+        fp = wd.write(present.render_chunk(names, seqs, ch).encode("latin-1"), ".in")
+    else:
+        fp = wd.write(kal.fasta_bytes(names, seqs), ".fa")
+    if entry == "lib":
+        r = kal.run_files([fp], cfg)
+        if r["read_rcs"] != [0] or r["run_rc"] != 0 or r["msa"] is None:
+            raise kal.Rejected("read/run failed", {"read": r["read_rcs"], "run": r["run_rc"]})
+        n, rows = kal.msa_rows(r["msa"])
+        return n, rows
     en, text = kal.run_cli_files([fp], cfg, fmt="fasta")
     if en.rc != 0 or text is None:
         raise kal.Rejected("CLI failed", {"rc": en.rc, "stderr": en.err[-300:]})
@@ -102,8 +115,13 @@ def check(case):
     if any(" " in x for x in names):
         cl.append("names_with_blanks")
     try:
-        n1, r1 = run(names, seqs, cfg, case["entry"])
-        n2, r2 = run([names[i] for i in perm], [seqs[i] for i in perm], cfg, case["entry"])
+        infmt = case.get("infmt", "fasta")
+        if infmt != "fasta" and (any(not x for x in seqs) or max(len(x) for x in names) > 200):
+            infmt = "fasta"
+        if infmt != "fasta":
+            cl.append("input=" + infmt)
+        n1, r1 = run(names, seqs, cfg, case["entry"], infmt, case.get("inseed", 0))
+        n2, r2 = run([names[i] for i in perm], [seqs[i] for i in perm], cfg, case["entry"], infmt, case.get("inseed", 0) + 1)
     except kal.Failure as f:
         if f.ended.kind == "hang":
             return engine.discard("cpu-limit (inconclusive; hangs are judged by C05)")
